@@ -18,6 +18,7 @@ type replayFile struct {
 	Site   string   `json:"site"`
 	Msg    string   `json:"msg"`
 	Params map[string]int `json:"params"`
+	Sched  []SchedStep    `json:"sched"`
 }
 
 var params map[string]int
@@ -52,6 +53,7 @@ func Load(path string) (entry string) {
 	}
 	vec, pos, loaded = r.Vector, 0, true
 	params = r.Params
+	schedule = r.Sched
 	Failed = nil
 	return r.Entry
 }
